@@ -184,7 +184,11 @@ let dispatch (req : string list) (impl : string list) : string * string =
           | "OK" :: p :: _ ->
             let ps = str_of_field p in
             if not (rx_accepts semver_spec (sv_atoms ps)) then "BAD:not-semver-grammar"
-            else (match semver_parse ps with Some v2 when str_eqb (semver_print v2) ps -> "OK" | _ -> "BAD:own-parser-rejects-or-changes")
+            else (match semver_parse ps with
+                  | Some v2 when str_eqb (semver_print v2) ps ->
+                    (* the model is PROVED equal to the placement rule (c06_semver_refines): a different answer misplaces a component *)
+                    if String.concat " " impl = "OK " ^ semver_fields v then "OK" else "BAD:placement(semver)"
+                  | _ -> "BAD:own-parser-rejects-or-changes")
           | _ -> "BAD:not-ok"
         in
         ignore printed;
@@ -205,6 +209,25 @@ let dispatch (req : string list) (impl : string list) : string * string =
           ("OK " ^ pep_fields v, verdict))
       | o -> failwith ("fmt " ^ o)
     end
+  | [ "CNV"; inf; outf; prefix; s ] ->
+    let fmt_of = function "semver" -> FSemver | "pep440" -> FPep440 | "auto" -> FAuto | o -> failwith ("fmt " ^ o) in
+    let pre = match opt_str_of_field prefix with Some p -> p | None -> [] in
+    let reply =
+      match render_cmd (fmt_of inf) (fmt_of outf) pre (str_of_field s) with
+      | OOk t -> "OK " ^ field_of_str t
+      | OErr -> "ERR"
+      | OPanic -> "PANIC"
+    in
+    let verdict =
+      match impl with
+      | "PANIC" :: _ -> "BAD:panic"
+      | [ "OK"; t ] when prefix = "~" ->
+        let t = str_of_field t in
+        if outf = "semver" then (if rx_accepts semver_spec (sv_atoms t) then "OK" else "BAD:not-semver-grammar")
+        else (match pep_parse t with Some v when str_eqb (pep_print v) t -> "OK" | _ -> "BAD:not-pep440-normal-form")
+      | _ -> "OK"
+    in
+    (reply, verdict)
   | [ "TS"; p; t ] ->
     let reply =
       match resolve_timestamp (str_of_field p) (n_of_dec t) with
